@@ -40,16 +40,38 @@ def insert_into(
     dist: int,
     insert: Fragment,
     parent: Optional["Node"],
+    open_start: int = 0,
+    open_end: int = 0,
+    parent_open: bool = False,
 ) -> Fragment | None:
+    """open_start / open_end: open depth of the slice below `content`;
+    parent_open: `parent` itself is open at one side of the slice."""
     a = content.find_index(dist)
     index, offset = a["index"], a["offset"]
     child = content.maybe_child(index)
     if offset == dist or cast("Node", child).is_text:
-        if parent and not parent.can_replace(index, index, insert):
+        # a node that is open at either side of the slice is only part of a node
+        # of the document (replace validates it after joining); one that lies
+        # completely inside the slice is checked here
+        if (
+            parent
+            and not parent_open
+            and not parent.can_replace(index, index, insert)
+        ):
             return None
         return content.cut(0, dist).append(insert).append(content.cut(dist))
     assert child
-    inner = insert_into(child.content, dist - offset - 1, insert, child)
+    at_start = index == 0 and open_start > 0
+    at_end = index == content.child_count - 1 and open_end > 0
+    inner = insert_into(
+        child.content,
+        dist - offset - 1,
+        insert,
+        child,
+        open_start - 1 if at_start else 0,
+        open_end - 1 if at_end else 0,
+        at_start or at_end,
+    )
     if inner:
         return content.replace_child(index, child.copy(inner))
     return None
@@ -68,7 +90,14 @@ class Slice:
         return self.content.size - self.open_start - self.open_end
 
     def insert_at(self, pos: int, fragment: Fragment) -> Optional["Slice"]:
-        content = insert_into(self.content, pos + self.open_start, fragment, None)
+        content = insert_into(
+            self.content,
+            pos + self.open_start,
+            fragment,
+            None,
+            self.open_start,
+            self.open_end,
+        )
         if content:
             return Slice(content, self.open_start, self.open_end)
         return None
